@@ -74,7 +74,7 @@ O["C15"]["soft_theorems"] = {"RulesModel.Proofs.C15SignedTable": ["Rules.Signed.
 # kernel evaluation may fail (then Tie/LexerATN - the translator's own comparison - names a distinguishing string and the
 # correspondence runs it), and an unreadable ATN proves nothing
 for pid in ("C05", "C15", "C20"):
-    O[pid].setdefault("soft_theorems", {})["RulesModel.Tie.LexerATNProof"] = ["Rules.NFA.cert_sound", "Rules.NFA.rx_lang", "Rules.NFA.rule_equiv", "Rules.Tie.tables_checked", "Rules.Tie.lexer_atn_language"]
+    O[pid].setdefault("soft_theorems", {})["RulesModel.Tie.LexerATNProof"] = ["Rules.NFA.cert_sound", "Rules.NFA.rx_lang", "Rules.NFA.rule_equiv", "Rules.Tie.tables_checked", "Rules.Tie.lexer_atn_language", "Rules.Tie.model_token_on_tables"]
 for pid, o in O.items():
     o["assumptions"] = ASSUME["all"] + ASSUME.get(pid, [])
     if not EXTRA.get(pid):
